@@ -495,6 +495,16 @@ theorem world_leaves_sorted_array (c : Ctx) :
     obtain ⟨_, i, s, x', _, _, _, hs⟩ := (close_ok h).core
     exact ⟨_, hs⟩
 
+/-- … nor can a disabled account start a flash loan, nor be closed (`world_close_account_spec`): `lending_account_start_flashloan`
+    as a whole instruction, wherever it sits in whatever transaction -/
+theorem world_disabled_account_starts_no_flash_loan (c : Ctx) (hd : flag c ACCOUNT_DISABLED = true) (cur endIdx : Nat) (endIx : Option Bool) :
+    (World.startFlashloan c cur endIdx endIx).isOk = false := by
+  cases hr : World.startFlashloan c cur endIdx endIx with
+  | error e => rfl
+  | ok f =>
+    have := (startFlashloan_ok hr).2.2.2.1
+    rw [hd] at this; cases this
+
 theorem allNone_true : ∀ (s : List Account.Slot), Account.allNone s = .ok true →
     ∀ x ∈ s, x.a < EMPTY_BALANCE_THRESHOLD ∧ x.l < EMPTY_BALANCE_THRESHOLD := by
   intro s
